@@ -30,6 +30,19 @@ pub trait Subject: RngCore + Clone + Debug + Send + Sync + Sized + 'static {
     fn s_de(_b: &[u8]) -> Option<Result<Self, String>> {
         None
     }
+    fn s_de_in_place(&mut self, _b: &[u8]) -> Option<Result<(), String>> {
+        None
+    }
+    /// two values read one after the other from one byte stream
+    fn s_de_two(_b: &[u8]) -> Option<Result<(Self, Self), String>> {
+        None
+    }
+    fn s_ser_json(&self) -> Option<Vec<u8>> {
+        None
+    }
+    fn s_de_json(_b: &[u8]) -> Option<Result<Self, String>> {
+        None
+    }
 }
 
 pub struct Wrap<T>(pub T);
@@ -71,6 +84,12 @@ impl<T: Subject> Gen for Wrap<T> {
     fn ser(&self) -> Option<Vec<u8>> {
         self.0.s_ser()
     }
+    fn ser_json(&self) -> Option<Vec<u8>> {
+        self.0.s_ser_json()
+    }
+    fn de_in_place(&mut self, bytes: &[u8]) -> Option<Result<(), String>> {
+        self.0.s_de_in_place(bytes)
+    }
     fn as_any(&self) -> &dyn Any {
         self
     }
@@ -90,12 +109,32 @@ macro_rules! subject {
     };
     (@jump no) => {};
     (@eq yes) => {
-        fn s_eq(&self, o: &Self) -> Option<bool> { Some(self == o) }
+        fn s_eq(&self, o: &Self) -> Option<bool> {
+            let e = self == o;
+            // `!=` must be the negation of `==` (a hand-written `ne`)
+            #[allow(clippy::nonminimal_bool)]
+            if (self != o) == e {
+                EQ_NE_INCONSISTENT.fetch_add(1, std::sync::atomic::Ordering::Relaxed);
+            }
+            Some(e)
+        }
     };
     (@eq no) => {};
     (@serde yes) => {
         fn s_ser(&self) -> Option<Vec<u8>> { Some(bincode::serialize(self).expect("bincode serialize")) }
         fn s_de(b: &[u8]) -> Option<Result<Self, String>> { Some(bincode::deserialize::<Self>(b).map_err(|e| e.to_string())) }
+        fn s_de_in_place(&mut self, b: &[u8]) -> Option<Result<(), String>> { Some({ use bincode::Options; let mut de = bincode::Deserializer::from_slice(b, bincode::DefaultOptions::new().with_fixint_encoding().allow_trailing_bytes()); serde::Deserialize::deserialize_in_place(&mut de, self).map_err(|e| e.to_string()) }) }
+        fn s_de_two(b: &[u8]) -> Option<Result<(Self, Self), String>> {
+            let mut cur = std::io::Cursor::new(b);
+            let r = (|| -> Result<(Self, Self), String> {
+                let x: Self = bincode::deserialize_from(&mut cur).map_err(|e| e.to_string())?;
+                let y: Self = bincode::deserialize_from(&mut cur).map_err(|e| e.to_string())?;
+                Ok((x, y))
+            })();
+            Some(r)
+        }
+        fn s_ser_json(&self) -> Option<Vec<u8>> { Some(serde_json::to_vec(self).expect("json serialize")) }
+        fn s_de_json(b: &[u8]) -> Option<Result<Self, String>> { Some(serde_json::from_slice::<Self>(b).map_err(|e| e.to_string())) }
     };
     (@serde no) => {};
 }
@@ -140,6 +179,15 @@ pub trait CoreSubject: BlockRngCore + SeedableRng + Clone + Debug + PartialEq + 
     fn c_de(_b: &[u8]) -> Option<Result<Self, String>> {
         None
     }
+    fn c_de_in_place(&mut self, _b: &[u8]) -> Option<Result<(), String>> {
+        None
+    }
+    fn c_ser_json(&self) -> Option<Vec<u8>> {
+        None
+    }
+    fn c_de_json(_b: &[u8]) -> Option<Result<Self, String>> {
+        None
+    }
 }
 impl CoreSubject for Hc128Core {
     fn words(r: &Self::Results) -> Vec<u64> {
@@ -158,6 +206,15 @@ impl CoreSubject for IsaacCore {
     fn c_de(b: &[u8]) -> Option<Result<Self, String>> {
         Some(bincode::deserialize::<Self>(b).map_err(|e| e.to_string()))
     }
+    fn c_de_in_place(&mut self, b: &[u8]) -> Option<Result<(), String>> {
+        Some({ use bincode::Options; let mut de = bincode::Deserializer::from_slice(b, bincode::DefaultOptions::new().with_fixint_encoding().allow_trailing_bytes()); serde::Deserialize::deserialize_in_place(&mut de, self).map_err(|e| e.to_string()) })
+    }
+    fn c_ser_json(&self) -> Option<Vec<u8>> {
+        Some(serde_json::to_vec(self).expect("json serialize"))
+    }
+    fn c_de_json(b: &[u8]) -> Option<Result<Self, String>> {
+        Some(serde_json::from_slice::<Self>(b).map_err(|e| e.to_string()))
+    }
 }
 impl CoreSubject for Isaac64Core {
     fn words(r: &Self::Results) -> Vec<u64> {
@@ -170,13 +227,37 @@ impl CoreSubject for Isaac64Core {
     fn c_de(b: &[u8]) -> Option<Result<Self, String>> {
         Some(bincode::deserialize::<Self>(b).map_err(|e| e.to_string()))
     }
+    fn c_de_in_place(&mut self, b: &[u8]) -> Option<Result<(), String>> {
+        Some({ use bincode::Options; let mut de = bincode::Deserializer::from_slice(b, bincode::DefaultOptions::new().with_fixint_encoding().allow_trailing_bytes()); serde::Deserialize::deserialize_in_place(&mut de, self).map_err(|e| e.to_string()) })
+    }
+    fn c_ser_json(&self) -> Option<Vec<u8>> {
+        Some(serde_json::to_vec(self).expect("json serialize"))
+    }
+    fn c_de_json(b: &[u8]) -> Option<Result<Self, String>> {
+        Some(serde_json::from_slice::<Self>(b).map_err(|e| e.to_string()))
+    }
 }
 
-#[derive(Clone)]
-pub struct CoreWrap<C: CoreSubject>(pub C);
+/// A bare block core with the results buffer its user keeps next to it. Single-word reads reuse that
+/// buffer from block to block (as BlockRng does); `fill_bytes` hands the core a fresh buffer for every
+/// block; a clone of the wrapper clones the core only and starts with a fresh buffer (the buffer is the
+/// caller's, not part of the core).
+pub struct CoreWrap<C: CoreSubject>(pub C, pub Buf<C::Results>);
+
+/// the results buffers are plain arrays of integers
+pub struct Buf<R>(pub R);
+unsafe impl<R> Send for Buf<R> {}
+unsafe impl<R> Sync for Buf<R> {}
 
 impl<C: CoreSubject> CoreWrap<C> {
+    pub fn new(c: C) -> Self {
+        CoreWrap(c, Buf(C::Results::default()))
+    }
     fn block(&mut self) -> Vec<u64> {
+        self.0.generate(&mut (self.1).0);
+        C::words(&(self.1).0)
+    }
+    fn block_fresh(&mut self) -> Vec<u64> {
         let mut r = C::Results::default();
         self.0.generate(&mut r);
         C::words(&r)
@@ -198,7 +279,7 @@ impl<C: CoreSubject> Gen for CoreWrap<C> {
     fn fill_bytes(&mut self, dest: &mut [u8]) {
         let mut off = 0;
         while off < dest.len() {
-            let b = self.block();
+            let b = self.block_fresh();
             for w in b {
                 let bytes = w.to_le_bytes();
                 for k in 0..C::ITEM_BYTES {
@@ -217,7 +298,7 @@ impl<C: CoreSubject> Gen for CoreWrap<C> {
         panic!("long_jump not offered")
     }
     fn clone_box(&self) -> Box<dyn Gen> {
-        Box::new(CoreWrap(self.0.clone()))
+        Box::new(CoreWrap::new(self.0.clone()))
     }
     fn clone_from_dyn(&mut self, src: &dyn Gen) {
         let o = src.as_any().downcast_ref::<CoreWrap<C>>().expect("clone_from across types");
@@ -225,7 +306,11 @@ impl<C: CoreSubject> Gen for CoreWrap<C> {
     }
     fn eq_dyn(&self, other: &dyn Gen) -> Option<bool> {
         let o = other.as_any().downcast_ref::<CoreWrap<C>>().expect("eq_dyn across types");
-        Some(self.0 == o.0)
+        let e = self.0 == o.0;
+        if (self.0 != o.0) == e {
+            EQ_NE_INCONSISTENT.fetch_add(1, std::sync::atomic::Ordering::Relaxed);
+        }
+        Some(e)
     }
     fn debug(&self, alternate: bool) -> String {
         if alternate {
@@ -236,6 +321,12 @@ impl<C: CoreSubject> Gen for CoreWrap<C> {
     }
     fn ser(&self) -> Option<Vec<u8>> {
         self.0.c_ser()
+    }
+    fn ser_json(&self) -> Option<Vec<u8>> {
+        self.0.c_ser_json()
+    }
+    fn de_in_place(&mut self, bytes: &[u8]) -> Option<Result<(), String>> {
+        self.0.c_de_in_place(bytes)
     }
     fn as_any(&self) -> &dyn Any {
         self
@@ -298,6 +389,12 @@ impl<T: SeedSubject> GenType for TypeOf<T> {
     fn de(&self, bytes: &[u8]) -> Option<Result<Box<dyn Gen>, String>> {
         T::s_de(bytes).map(|r| r.map(|g| Box::new(Wrap(g)) as Box<dyn Gen>))
     }
+    fn de_json(&self, bytes: &[u8]) -> Option<Result<Box<dyn Gen>, String>> {
+        T::s_de_json(bytes).map(|r| r.map(|g| Box::new(Wrap(g)) as Box<dyn Gen>))
+    }
+    fn de_two(&self, bytes: &[u8]) -> Option<Result<(Box<dyn Gen>, Box<dyn Gen>), String>> {
+        T::s_de_two(bytes).map(|r| r.map(|(a, b)| (Box::new(Wrap(a)) as Box<dyn Gen>, Box::new(Wrap(b)) as Box<dyn Gen>)))
+    }
     fn sweep(&self, job: &SweepJob) -> SweepResult {
         sweep::<T>(&self.info, self.kind, job)
     }
@@ -313,22 +410,25 @@ impl<C: CoreSubject> GenType for CoreTypeOf<C> {
         &self.info
     }
     fn from_seed(&self, seed: &[u8]) -> Box<dyn Gen> {
-        Box::new(CoreWrap(C::from_seed(mk_seed::<C>(seed))))
+        Box::new(CoreWrap::new(C::from_seed(mk_seed::<C>(seed))))
     }
     fn seed_from_u64(&self, x: u64) -> Box<dyn Gen> {
-        Box::new(CoreWrap(C::seed_from_u64(x)))
+        Box::new(CoreWrap::new(C::seed_from_u64(x)))
     }
     fn from_rng(&self, src: &mut ScriptSource) -> Box<dyn Gen> {
-        Box::new(CoreWrap(C::from_rng(src)))
+        Box::new(CoreWrap::new(C::from_rng(src)))
     }
     fn try_from_rng(&self, src: &mut FallibleSource) -> Result<Box<dyn Gen>, SourceError> {
-        C::try_from_rng(src).map(|g| Box::new(CoreWrap(g)) as Box<dyn Gen>)
+        C::try_from_rng(src).map(|g| Box::new(CoreWrap::new(g)) as Box<dyn Gen>)
     }
     fn from_rng_of(&self, parent: &mut dyn Gen) -> Box<dyn Gen> {
-        Box::new(CoreWrap(C::from_rng(&mut AsRng(parent))))
+        Box::new(CoreWrap::new(C::from_rng(&mut AsRng(parent))))
     }
     fn de(&self, bytes: &[u8]) -> Option<Result<Box<dyn Gen>, String>> {
-        C::c_de(bytes).map(|r| r.map(|g| Box::new(CoreWrap(g)) as Box<dyn Gen>))
+        C::c_de(bytes).map(|r| r.map(|g| Box::new(CoreWrap::new(g)) as Box<dyn Gen>))
+    }
+    fn de_json(&self, bytes: &[u8]) -> Option<Result<Box<dyn Gen>, String>> {
+        C::c_de_json(bytes).map(|r| r.map(|g| Box::new(CoreWrap::new(g)) as Box<dyn Gen>))
     }
     fn sweep(&self, _job: &SweepJob) -> SweepResult {
         SweepResult::default()
@@ -536,6 +636,8 @@ fn timer_closure(c: Cursor) -> impl Fn() -> u64 + Send + Sync + Clone + 'static 
 pub struct JitterGen<F: Fn() -> u64 + Send + Sync + Clone + 'static> {
     rng: JitterRng<F>,
     script: Arc<TimerScript>,
+    /// Display text of the error the last test_timer call returned
+    last_err_text: Option<String>,
 }
 
 impl<F: Fn() -> u64 + Send + Sync + Clone + 'static> JitterOps for JitterGen<F> {
@@ -547,7 +649,9 @@ impl<F: Fn() -> u64 + Send + Sync + Clone + 'static> JitterOps for JitterGen<F> 
     }
     fn test_timer(&mut self) -> TimerResult {
         use rand_jitter::TimerError as E;
-        match self.rng.test_timer() {
+        let res = self.rng.test_timer();
+        self.last_err_text = res.as_ref().err().map(|e| e.to_string());
+        match res {
             Ok(r) => TimerResult::Ok(r),
             Err(E::NoTimer) => TimerResult::NoTimer,
             Err(E::CoarseTimer) => TimerResult::CoarseTimer,
@@ -572,6 +676,9 @@ impl<F: Fn() -> u64 + Send + Sync + Clone + 'static> JitterOps for JitterGen<F> 
     fn timer_consumed(&self) -> usize {
         self.script.consumed()
     }
+    fn last_timer_error_display(&self) -> Option<String> {
+        self.last_err_text.clone()
+    }
 }
 
 impl<F: Fn() -> u64 + Send + Sync + Clone + 'static> Gen for JitterGen<F> {
@@ -595,7 +702,7 @@ impl<F: Fn() -> u64 + Send + Sync + Clone + 'static> Gen for JitterGen<F> {
         let rng = self.rng.clone();
         // the cursor the cloned timer reads from (the clone of the closure cloned its Cursor)
         let script = LAST_FORK.with(|l| l.borrow_mut().take()).unwrap_or_else(|| self.script.clone());
-        Box::new(JitterGen { rng, script })
+        Box::new(JitterGen { rng, script, last_err_text: None })
     }
     fn clone_from_dyn(&mut self, src: &dyn Gen) {
         let o = src.as_any().downcast_ref::<JitterGen<F>>().expect("clone_from across types");
@@ -630,7 +737,7 @@ impl<F: Fn() -> u64 + Send + Sync + Clone + 'static> Gen for JitterGen<F> {
 
 fn make_jitter(script: Arc<TimerScript>, forking: bool) -> Box<dyn Gen> {
     let timer = timer_closure(Cursor { script: script.clone(), forking });
-    Box::new(JitterGen { rng: JitterRng::new_with_timer(timer), script })
+    Box::new(JitterGen { rng: JitterRng::new_with_timer(timer), script, last_err_text: None })
 }
 
 /// Zero-sized timers: three distinct `fn` item types reading from process-wide script slots.
@@ -651,9 +758,9 @@ fn zst_timer_2() -> u64 {
 fn make_jitter_zst(slot: usize, script: Arc<TimerScript>) -> Box<dyn Gen> {
     *ZST_SLOTS[slot].lock().unwrap() = Some(script.clone());
     match slot {
-        0 => Box::new(JitterGen { rng: JitterRng::new_with_timer(zst_timer_0), script }),
-        1 => Box::new(JitterGen { rng: JitterRng::new_with_timer(zst_timer_1), script }),
-        _ => Box::new(JitterGen { rng: JitterRng::new_with_timer(zst_timer_2), script }),
+        0 => Box::new(JitterGen { rng: JitterRng::new_with_timer(zst_timer_0), script, last_err_text: None }),
+        1 => Box::new(JitterGen { rng: JitterRng::new_with_timer(zst_timer_1), script, last_err_text: None }),
+        _ => Box::new(JitterGen { rng: JitterRng::new_with_timer(zst_timer_2), script, last_err_text: None }),
     }
 }
 
@@ -784,6 +891,45 @@ impl Registry for Reg {
     fn jitter_info(&self) -> &TypeInfo {
         &self.jitter_info
     }
+    fn seed_type_format_probe(&self) -> (u64, Option<String>) {
+        // Debug of the public seed wrapper type under every formatting flag combination of the probe set
+        let mut n = 0u64;
+        for fill in [0x00u8, 0xff, 0x5a] {
+            let seed = rand_xoshiro::Seed512([fill; 64]);
+            let r = std::panic::catch_unwind(|| {
+                let mut total = 0usize;
+                total += format!("{:?}", seed).len();
+                total += format!("{:#?}", seed).len();
+                total += format!("{:.0?}", seed).len();
+                total += format!("{:.1?}", seed).len();
+                total += format!("{:.63?}", seed).len();
+                total += format!("{:.64?}", seed).len();
+                total += format!("{:.65?}", seed).len();
+                total += format!("{:.4096?}", seed).len();
+                total += format!("{:200?}", seed).len();
+                total += format!("{:<7.300?}", seed).len();
+                total += format!("{:#.70?}", seed).len();
+                total += format!("{:x?}", seed).len();
+                total += format!("{:#X?}", seed).len();
+                total += format!("{:+.2?}", seed).len();
+                total
+            });
+            n += 14;
+            if let Err(e) = r {
+                let msg = e.downcast_ref::<String>().cloned().or_else(|| e.downcast_ref::<&str>().map(|s| s.to_string())).unwrap_or_else(|| "panic".into());
+                return (n, Some(format!("formatting Seed512([{:#x}; 64]) with Debug panicked: {}", fill, msg)));
+            }
+            // the usual seed-type traits
+            let mut s2 = seed.clone();
+            if s2.as_ref().len() != 64 || s2.as_mut().len() != 64 || rand_xoshiro::Seed512::default().as_ref() != [0u8; 64] {
+                return (n, Some("Seed512 as_ref / as_mut / default do not cover 64 bytes".into()));
+            }
+        }
+        (n, None)
+    }
+    fn eq_ne_inconsistencies(&self) -> u64 {
+        EQ_NE_INCONSISTENT.load(std::sync::atomic::Ordering::Relaxed)
+    }
     fn isaac_array_probe(&self) -> (u64, Option<String>) {
         fn probe<C: CoreSubject>(name: &str, flip: impl Fn(&mut C::Results, usize)) -> (u64, Option<String>)
         where
@@ -859,6 +1005,8 @@ fn assert_send_sync() {
 // formats every record at every level, so that the argument expressions of the crate's log
 // statements are evaluated in every check
 // ------------------------------------------------------------------------------------------------
+/// comparisons in which `a != b` was not the negation of `a == b`
+pub static EQ_NE_INCONSISTENT: std::sync::atomic::AtomicU64 = std::sync::atomic::AtomicU64::new(0);
 pub static LOG_RECORDS: std::sync::atomic::AtomicU64 = std::sync::atomic::AtomicU64::new(0);
 struct SinkLogger;
 impl log::Log for SinkLogger {
